@@ -131,4 +131,24 @@ PROPS = {
         "require_strata": {"both": ["kind-code", "kind-name", "kind-name-nearmiss", "grid-build", "grid", "dict", "list", "dateTime", "xstr"]},
         "min_evals": {"quick": 50_000, "thorough": 1_000_000},
     },
+    "C04": {
+        "quick": [phase(16, 1.0, 90)],
+        "thorough": [phase(16, 1.0, 1500)],
+        "rule": ("cases = the C01 generator's model values; for each, (A) the spec-derived reference writer (harness/src/refzinc.rs) produces a "
+                 "random legal spelling (space after commas, trailing list comma, space- or comma-separated dict tags, k vs k:M, exponent "
+                 "/ '_' / trailing-.0 number spellings, \\uXXXX (either hex case) and \\b \\f escapes, LF vs CRLF, 'Z' vs 'Z UTC', numeric "
+                 "zero offset, fraction trailing zeros, '<<' with or without newline, trailing blank line) and libhaystack must decode it to "
+                 "the value; (B) libhaystack's own text must be accepted by the strict reference reader and denote the value. Reference "
+                 "writer and reader are first checked against each other (a disagreement is a harness error = inconclusive)"),
+        "assumptions": [WELLFORMED, "the Zinc grammar as transcribed in DESIGN Appendix A is the trusted base",
+                        "Uri backslash escapes other than \\` \\\\ and \\uXXXX are not exercised (implementations disagree)",
+                        "in a one-column grid a missing only-cell and N are the same denotation (counted as don't-care)",
+                        "'$' in strings is always written escaped by the reference writer"],
+        "require_strata": {"both": ["spelling:space-after-comma", "spelling:list-trailing-comma", "spelling:dict-comma-separator",
+                                    "spelling:marker-spelled-M", "spelling:exponent", "spelling:digit-underscore", "spelling:integer-dot-zero",
+                                    "spelling:esc-uXXXX", "spelling:esc-b", "spelling:esc-f", "spelling:crlf", "spelling:z-utc",
+                                    "spelling:zero-offset-numeric", "spelling:fraction-trailing-zero", "spelling:nested-grid-no-newline",
+                                    "spelling:trailing-blank-line", "spelling:uri-esc-uXXXX", "grid:meta", "grid:colmeta"]},
+        "min_evals": {"quick": 50_000, "thorough": 1_000_000},
+    },
 }
